@@ -27,10 +27,10 @@ inductive Pc where
   | fread (r : Req) (cur : Nat)   -- private handle positioned at `cur`, about to read
 deriving Repr, DecidableEq
 
-/-- `read_exact` at a cursor: error past the end of the file; reading nothing always succeeds
-(seeking past the end is allowed). -/
+/-- `FileStorage::read` (after commit "fix: bound checks when opening damaged files"): a read that
+does not lie inside the file is an error (also a zero-length read that starts past the end). -/
 def readExact (file : Bytes) (cur n : Nat) : Option Bytes :=
-  if n = 0 then some [] else if cur + n ≤ file.length then some (readAt file cur n) else none
+  if cur + n ≤ file.length then some (readAt file cur n) else none
 
 structure RState where
   file : Bytes
@@ -49,9 +49,12 @@ def RState.step (s : RState) : REv → RState
   | .start t r =>
     match s.pcs t with
     | .idle =>
-      match s.lock with
-      | none => { s with lock := some t, pcs := setPc s.pcs t (.lseek r) }
-      | some _ => { s with pcs := setPc s.pcs t (.fseek r) }
+      -- the range check comes first (before `try_lock`): an out-of-range read fails at once
+      if r.pos + r.n > s.file.length then { s with log := (t, r, none) :: s.log }
+      else
+        match s.lock with
+        | none => { s with lock := some t, pcs := setPc s.pcs t (.lseek r) }
+        | some _ => { s with pcs := setPc s.pcs t (.fseek r) }
     | _ => s
   | .step t =>
     match s.pcs t with
